@@ -14,6 +14,11 @@ CHECKS = {
          "TLC enumerates every input file up to the bound (16 line kinds incl. blank/END/MODEL/TER/altloc/icode/CRLF/short lines, x drop-water) on a reader model structured like read_pdb + Biomolecule.__init__, checks AllIngested on it, and each of those files is read by the real code whose projected result must equal the model's; observed results are re-judged by TLC against the declarative Expected(file).",
          "Assumes WellFormed(file) as stated in the evidence; rendering of abstract lines to PDB text and the projection of Biomolecule objects are harness code; bounded by MaxLen (4 quick, 5 thorough) and the alphabet.",
          "DESIGN.md 6/C07", ["PdbReader", "MC_PdbReader", "PdbReaderTrace"]),
+ "C14": ("model_checking",
+         "TLA+ spec Cells: TLC exhaustive over add/remove/move histories and the key-arithmetic grid; TLC-simulated histories replayed on the real cells.Cells; TLC trace validation (CellsTrace) of every get_near_cells call of traced pipeline runs",
+         "TLC checks Consistent/QueryComplete/QuerySound over all bounded operation histories (3 atoms on positions straddling cell borders, sizes 2 and 5) and the covering lemma on a coordinate grid; simulated histories and the grid are executed on the real class and each recorded add/remove/query event is validated against the spec's actions; in traced pipeline runs TLC tracks every atom's position/cell from wrapper events and judges each real query against brute force.",
+         "Wrappers on Cells methods, Atom.__setattr__ and Residue.add/remove_atom are harness code; coordinates truncated to 0.001 A with a 0.003 A margin; pipeline traces cover the repository's PDB files only; cell-map maintenance defects of the hydrogen-optimisation classes are listed as known findings by call site.",
+         "DESIGN.md 6/C14", ["Cells", "MC_Cells", "CellsTrace"]),
 }
 
 NOT_YET = "check not built yet (build round in progress); planned per DESIGN.md section 6"
